@@ -4,6 +4,7 @@ package atree
 
 import (
 	"errors"
+	"math"
 
 	"github.com/fxamacker/cbor/v2"
 )
@@ -76,3 +77,5 @@ func vhThreshold() {
 	}
 	vhSetThreshold(T)
 }
+
+func mathCeil(f float64) float64 { return math.Ceil(f) }
